@@ -116,6 +116,121 @@ def wait_loop_decisions(ctx, repo, d, hd):
     ctx.floor("R4", "wait-loop valuations", n_ok, 16)
 
 
+def async_discovery_model(ctx, repo, rule, rule_filter=None):
+    """The awaitable locator's discovery run by interpretation: GeckoAsyncLocator is built by its own constructor with a
+    model task manager and event callback; discover() runs on a model event loop whose create_datagram_endpoint hands out a
+    model transport, whose sleep advances a model clock and delivers scripted HELLO replies through the async_on_handled
+    callback the locator passed to the hello handler (the consumer / broadcast coroutines themselves are C07 / C10 matter
+    and are not run).  Observed: when discover() returns, what it lists and announces, that the endpoint is closed and
+    the helper tasks' domain cancelled."""
+    from ..absint import BoundMethod, ClassRef, Closure, Interp, Native, Obj, Opaque, PyRaise, Undecided
+    L = "GeckoAsyncLocator"
+    d = repo.method(L, "discover")
+    try:
+        it0 = Interp(repo)
+        T_INIT, T_MAX = (it0.eval(ast.parse(f"GeckoConfig.{nm}", mode="eval").body, {"__mod__": d.mod, "__class__": d.cls})
+                         for nm in ("DISCOVERY_INITIAL_TIMEOUT_IN_SECONDS", "DISCOVERY_TIMEOUT_IN_SECONDS"))
+    except (PyRaise, Undecided) as e:
+        raise AnalysisError(f"discovery timeouts as the locator module sees them: {e}")
+    if not all(isinstance(x, (int, float)) for x in (T_INIT, T_MAX)) or not 0 < T_INIT < T_MAX:
+        raise AnalysisError(f"discovery timeouts not resolved: initial {T_INIT!r}, overall {T_MAX!r}")
+    A, B = (b"SPA-A", "Spa A", ("10.0.0.5", 10022)), (b"SPA-B", "Spa B", ("10.0.0.6", 10022))
+
+    def run(kwargs, script):
+        st = {"clock": 100.0, "cb": None, "closed": 0, "cancelled": [], "events": [], "sleeps": 0, "tasks": []}
+        pending = sorted(script, key=lambda x: x[0])
+        it = Interp(repo, max_depth=14)
+
+        def deliver():
+            while pending and pending[0][0] <= st["clock"] - 100.0 + 1e-9:
+                _, (ident, name, sender) = pending.pop(0)
+                if st["cb"] is None or st["closed"]:
+                    continue
+                h = Obj(None, {"spa_identifier": ident, "spa_name": name, "client_identifier": b"IOS-X", "was_broadcast_discovery": False}, name="hello-reply")
+                it.apply(st["cb"], [h, sender], {})
+        transport = Obj(None, {"close": Native(lambda a, k: st.__setitem__("closed", st["closed"] + 1), "close"), "sendto": Native(lambda a, k: None, "sendto"),
+                               "is_closing": Native(lambda a, k: bool(st["closed"]), "is_closing")}, name="transport")
+
+        def endpoint(a, k):
+            proto = a[0]([], {}) if isinstance(a[0], Closure) else it.apply(a[0], [], {})
+            if isinstance(proto, Obj) and proto.cls is not None:
+                cm = repo.method(proto.cls.short, "connection_made", required=False)
+                if cm is not None:
+                    it.call(cm, proto, [transport])
+            return (transport, proto)
+        loop = Obj(None, {"create_future": Native(lambda a, k: Obj(None, {"done": Native(lambda a2, k2: False), "set_result": Native(lambda a2, k2: None),
+                                                                         "cancel": Native(lambda a2, k2: None)}, name="future"), "create_future"),
+                          "create_datagram_endpoint": Native(endpoint, "create_datagram_endpoint")}, name="loop")
+        taskman = Obj(None, {"add_task": Native(lambda a, k: st["tasks"].append(tuple(a[1:3])), "add_task"),
+                             "cancel_key_tasks": Native(lambda a, k: st["cancelled"].append(a[0]), "cancel_key_tasks")}, name="taskman")
+
+        def event(a, k):
+            st["events"].append((getattr(a[0], "name", str(a[0])), k.get("spa_descriptor")))
+
+        def chook(it_, node, callee, args, kwargs_):
+            nm = getattr(callee, "name", "")
+            if nm == "time.monotonic":
+                return st["clock"]
+            if nm in ("asyncio.get_running_loop", "asyncio.get_event_loop"):
+                return loop
+            if nm == "asyncio.sleep":
+                st["sleeps"] += 1
+                if st["sleeps"] > 5000:
+                    raise PyRaise("model: discover() did not return")
+                st["clock"] += float(args[0]) if args and isinstance(args[0], (int, float)) and args[0] > 0 else 0.05
+                deliver()
+                return None
+            if isinstance(callee, BoundMethod) and callee.fi.name == "broadcast" and "async_on_handled" in kwargs_:
+                st["cb"] = kwargs_["async_on_handled"]
+                return NotImplemented
+            if isinstance(callee, BoundMethod) and callee.fi.name in ("consume", "_broadcast_loop"):
+                return Opaque(f"coroutine<{callee.fi.name}>")
+            return NotImplemented
+        it.call_hook = chook
+        try:
+            loc_ = it.apply(ClassRef(repo.cls(L)), [taskman, Native(event, "event_handler")], dict(kwargs))
+            it.steps = 0
+            it.call(d, loc_, [])
+            lst = it.getattr(loc_, "spas")
+            spas = [(it.getattr(x, "identifier"), it.getattr(x, "name"), (it.getattr(x, "ipaddress"), it.getattr(x, "port"))) for x in list(lst or [])]
+        except PyRaise as e:
+            return ("raises " + e.what, [], st)
+        except Undecided as e:
+            raise AnalysisError(f"{L}.discover on the model event loop: {e}")
+        return (round(st["clock"] - 100.0, 3), spas, st)
+
+    def within(t, lo, hi):
+        return isinstance(t, float) and lo - 1e-6 <= t <= hi + 1e-6
+    slack = 0.25
+    cases = (
+        ("requested::other-answers-first", {"spa_identifier": "SPA-B"}, [(0.3, A), (T_INIT / 2, B)], (T_INIT / 2, T_INIT / 2 + slack), [B],
+         "lists only the requested spa and returns as soon as it has answered - not when another spa answers first"),
+        ("requested::only-another-answers", {"spa_identifier": "SPA-B"}, [(0.3, A), (T_INIT + 1, A)], (T_MAX, T_MAX + slack), [],
+         "the requested spa never answers: nothing is listed, returns at the discovery timeout"),
+        ("no-request::one-answers-early", {}, [(0.3, A)], (T_INIT, T_INIT + slack), [A], "no spa requested: returns after the initial wait once any spa has answered, not at the first reply"),
+        ("no-request::duplicates-and-two-spas", {}, [(0.2, A), (0.4, A), (0.5, B), (0.6, A), (0.7, B)], (T_INIT, T_INIT + slack), [A, B], "each responding spa is listed exactly once, in order of first reply"),
+        ("no-request::late-first-answer", {}, [(T_INIT + 1.0, A)], (T_INIT + 1.0, T_INIT + 1.0 + slack), [A], "nobody answered during the initial wait: returns when the first spa answers"),
+        ("nobody-answers", {}, [], (T_MAX, T_MAX + slack), [], "nobody answers: returns at the discovery timeout"),
+        ("address-given::first-answer", {"spa_address": "10.0.0.5"}, [(0.5, A)], (0.5, 0.5 + slack), [A], "an address was given: returns as soon as that spa has answered"),
+        ("empty-strings-mean-no-request", {"spa_address": "", "spa_identifier": ""}, [(0.3, A), (0.5, B)], (T_INIT, T_INIT + slack), [A, B], "empty address / identifier mean no request: the initial wait is honoured and every spa listed"),
+    )
+    n = 0
+    for key, kwargs, script, (lo, hi), want_list, what in cases:
+        t, spas, st = run(kwargs, script)
+        n += 1
+        ctx.ob(rule, f"{L}::{key}::returns-on-time", within(t, lo, hi),
+               f"{L}({', '.join(f'{k}={v!r}' for k, v in kwargs.items())}).discover() with replies {[(tt, r[0]) for tt, r in script]} returns at t={t}; expected within [{lo}, {hi:.2f}]s: {what}",
+               d.loc, sample={"rule": rule, "case": key, "returned_at": t, "listed": [str(x[0]) for x in spas]})
+        ctx.ob(rule_filter if (rule_filter and key.startswith("requested::")) else rule, f"{L}::{key}::lists", spas == want_list,
+               f"{L} lists {spas}, expected {want_list} (identifier, name and address intact, each spa once, only the requested one when an identifier is given)", d.loc)
+        ev = [e for e in st["events"] if "DISCOVERED" in e[0]]
+        ctx.ob(rule, f"{L}::{key}::announces-each-listed-spa-once", len(ev) == len(want_list),
+               f"{L} raises {len(ev)} discovered-spa event(s) for {len(want_list)} listed spa(s)", d.loc)
+        ctx.ob(rule, f"{L}::{key}::endpoint-closed-and-helpers-cancelled", st["closed"] >= 1 and bool(st["cancelled"]) and all(k_ in st["cancelled"] for _n, k_ in st["tasks"]),
+               f"{L}.discover returns with transport.close() called {st['closed']} time(s), helper tasks started under {sorted({str(k_) for _n, k_ in st['tasks']})}, domains cancelled {st['cancelled']}", d.loc)
+    ctx.floor(rule, "awaitable discovery runs interpreted", n, 8)
+
+
 def blocking_discovery_model(ctx, repo, rule):
     """The blocking locator's whole discovery run by interpretation: GeckoLocator is built by its own constructor,
     start_discovery(True) runs on a model socket whose wait() advances a model clock and delivers scripted HELLO
@@ -225,7 +340,7 @@ def blocking_discovery_model(ctx, repo, rule):
 def check(ctx):
     repo = Repo()
     ctx.rule("R1", "de-dup + paired appends: membership of the identifier in the seen-list is tested with an early return dominating both appends; identifier and descriptor are appended on exactly the same paths, once")
-    ctx.rule("R2", "filter: when an identifier is requested, inequality with the decoded reply identifier returns before any append")
+    ctx.rule("R2", "filter: when an identifier is requested only that spa is listed - decided on the discovery model of R9 (a non-requested spa answering first, or alone, is not listed)")
     ctx.rule("R3", "found flag: set only after the append and only when an address or identifier was requested")
     ctx.rule("R4", "termination: decision table of the wait loop over (age < DISCOVERY_TIMEOUT, had enough time, some spa listed, requested spa found) by interpretation - it keeps waiting exactly when in time, not (enough time and some spa) and not found; every iteration suspends; age measured from the start stamp")
     ctx.rule("R5", "clean-up: transport closed and LOC tasks cancelled on every exit of discover(), cancellation included")
@@ -250,24 +365,6 @@ def check(ctx):
         same = (g.dom(I, D) and g.pdom(D, I)) or (g.dom(D, I) and g.pdom(I, D))
         ctx.ob("R1", f"{fi.qual}::appends-paired", same, f"{fi.qual}: identifier and descriptor are not appended on exactly the same paths (lists go out of step)", loc(fi, D.ast))
         ctx.ob("R1", f"{fi.qual}::appends-the-reply-identifier", ast.unparse(ic.args[0]) == f"{h}.spa_identifier", f"{fi.qual}: seen-list gets `{ast.unparse(ic.args[0])}`", loc(fi, I.ast))
-        # R2 filter: a test whose TRUE outcome means "an identifier was requested and the decoded reply
-        # identifier differs from it" must dominate the appends, and its true edge must not reach them
-        from ..cfg import atoms as _atoms
-        filt = []
-        for t in g.stmt_nodes():
-            if t.kind != "test":
-                continue
-            at = set(_atoms(t.ast, True)) | g.guard_atoms(t)
-            uneq = [x for x, pol in _atoms(t.ast, True) if (not pol) and " == " in x and "self._spa_identifier" in x and f"{h}.spa_identifier.decode(" in x]
-            if uneq and ("self._spa_identifier is None", False) in at:
-                filt.append(t)
-        for nm, N in (("identifier", I), ("descriptor", D)):
-            ok = bool(filt)
-            for t in filt:
-                tsucc = [m for m, l in g.succ[t] if l == "T"]
-                ok = ok and all(N not in (g.reach_from(m, labels_skip=("exc",)) | {m}) for m in tsucc)
-            ctx.ob("R2", f"{fi.qual}::{nm}-append::filtered", ok,
-                   f"{fi.qual}: a reply whose (decoded) identifier differs from the requested one can still reach the {nm} append", loc(fi, N.ast))
         # R3 found flag
         FLAG = found_flag_attr(repo)
         flags = [n for n in g.stmt_nodes() if assigns_attr(n, f"self.{FLAG}")]
@@ -351,4 +448,6 @@ def check(ctx):
     consume_pairing(ctx, repo, "R7")
     ctx.rule("R8", "the blocking locator's discovery run, interpreted end to end on a model socket and clock with scripted replies: it returns as soon as the requested spa (by text or bytes identifier, or by address) has answered and not when another spa answers first, otherwise after the initial wait once any spa has answered, at the latest at the discovery timeout; each spa is listed once with identifier, name and address intact; the socket is closed on return")
     blocking_discovery_model(ctx, repo, "R8")
+    ctx.rule("R9", "the awaitable locator's discovery run, interpreted end to end on a model event loop and clock with scripted replies (eight scripts): lists only the requested identifier when one is given, each spa once with its fields intact and one discovered-spa event each; returns as soon as the requested spa (or the spa at the given address) has answered, otherwise after the initial wait once any spa has answered, at the latest at the discovery timeout; empty strings mean no request; the endpoint is closed and the helper tasks' domain cancelled on return")
+    async_discovery_model(ctx, repo, "R9", rule_filter="R2")
     ctx.assume("asyncio runs one callback at a time (cooperative scheduling)")
